@@ -51,6 +51,9 @@ CLAIMED = {
  "C14": ("post-condition monitors on every variational distribution's forward() and on the strategies' calls + dense closed-form push of q(u) through p(f|u)",
          "Runtime monitoring: every variational distribution's real forward() is wrapped (returned q(u) must be the mean/covariance its parameters encode: Cholesky with the upper triangle ignored, mean-field, delta, natural, tril-natural); for VariationalStrategy / Unwhitened / CIQ (tight quadrature) x five distributions x batch patterns of inducing points, parameters and data the eval-mode q(f) (full covariance), training-mode mean/variance and kl_divergence() (read after a training forward and in eval mode) are compared with the dense closed form built from captured Z, kernel, mean, jitter and q(u) under the two-reference jitter rule; batch-decoupled, grid-interpolation (own cubic weights), LMC and independent-multitask mixing (dense and task_indices forms), q(u)=p(u) => prior & KL=0, whitened == unwhitened for the same q(u). Decides executed cells only; OrthogonallyDecoupled / NNVariationalStrategy are not exercised.",
          "Dense torch algebra trusted; whitening factor convention: Cholesky (standard, batch-decoupled) or symmetric square root (CIQ).", "DESIGN.md §4 C14"),
+ "C15": ("capture monitors on the real expected_log_prob/log_marginal/kl_divergence during the objective's forward + recomputation by definition; bound monitors against dense exact evidence and the Titsias bound; one-step NGD monitor",
+         "Runtime monitoring: during the real VariationalELBO / PredictiveLogLikelihood forward the per-point likelihood terms, the KL and the enumerated priors are captured by wrappers and the objective is recomputed from them by its definition (random minibatches B != N, beta in {0.1,1,3}, priors on/off, combine_terms both ways, whitened/unwhitened, Gaussian/Bernoulli/Laplace, batch); for Gaussian likelihoods N*ELBO <= exact log evidence and <= the dense collapsed bound for random and adversarial q(u) (tiny/huge S, far means, q=p), equality for the closed-form optimal q*, and one NGD step of lr=1 on NaturalVariationalDistribution (batched too, random starts, anomaly detection on) reaches q* in mean, covariance and ELBO. Decides executed cells only.",
+         "Bounds are evaluated for the jitter-regularised prior under the two-reference jitter rule; TrilNatural is covered by C19's gradient identity only.", "DESIGN.md §4 C15"),
 }
 NOT_YET = "check not built yet in this round (see DESIGN.md §9 build order); not claimed until its monitor exists and is silent on the unchanged tree"
 
